@@ -218,3 +218,18 @@ def only_via_edges_consistent(cfg: CFG, target: Node, edges: Sequence[Tuple[Node
     blocked = {(n.id, lab) for (n, lab) in edges}
     r = reach_consistent(cfg, [cfg.entry], stable, blocked_edges=blocked, ignore_labels=ignore_labels)
     return target.id not in r
+
+
+def resolve_local(fn: ast.AST, e: ast.AST) -> ast.AST:
+    """A local name that is assigned exactly once in fn (not a loop target / augmented) stands for that value."""
+    if isinstance(e, ast.Name):
+        vals = assigned_value(fn, e.id)
+        stores = [n for n in ast.walk(fn) if isinstance(n, ast.Name) and n.id == e.id and isinstance(n.ctx, ast.Store)]
+        if len(vals) == 1 and len(stores) == 1:
+            return vals[0]
+    return e
+
+
+def polarity_through_locals(fn: ast.AST, test: ast.AST, matcher: Callable[[ast.AST], bool]) -> Optional[str]:
+    """polarity() where a single-assignment local holding the matched expression counts as that expression."""
+    return polarity(test, lambda x: matcher(resolve_local(fn, x)))
